@@ -494,7 +494,7 @@ func init() {
 		Explanation: "Decides the structural clause 'no unchecked dynamic-type assumption on client-derived values in parse/plan code, and the per-entry recover barriers exist': every non-comma-ok type assertion in the parse/plan region is dominated by a successful comma-ok test or has a construction-fixed dynamic type; (*table).insert and (*DB).mapPartitionRequest install recover() first and spawn nothing below; a rejected entry still advances the WAL offset. Added clauses: a recovered panic in mapPartitionRequest still reports a result; string slices at searched positions are bounds-safe; no mutex is held without defer across goexpr Eval on the recovered ingest path.",
 		NotDecided:  []string{"panics from index/nil/arithmetic inside sqlparser, goexpr, bytemap on arbitrary bytes (no barrier at sql.Parse, and none is added)", "semantic validation of arities beyond what produces a dynamic-type assumption", "panics in goroutines without a barrier other than the two per-entry workers"},
 		Assumptions: []string{"the parse/plan region is closed under static calls and the listed plan-time interface methods"},
-		Rules:       []func(*Ctx){ruleC16a, ruleC16b, ruleC16c, func(c *Ctx) { ruleC16d(c, "C16.d") }, func(c *Ctx) { ruleC16e(c, "C16.e") }, func(c *Ctx) { ruleC16f(c, "C16.f") }, func(c *Ctx) { ruleC16g(c, "C16.g") }},
+		Rules:       []func(*Ctx){ruleC16a, ruleC16b, ruleC16c, func(c *Ctx) { ruleC16d(c, "C16.d") }, func(c *Ctx) { ruleC16e(c, "C16.e") }, func(c *Ctx) { ruleC16f(c, "C16.f") }, func(c *Ctx) { ruleC16g(c, "C16.g") }, func(c *Ctx) { ruleC16h(c, "C16.h") }},
 	})
 }
 
@@ -1098,4 +1098,149 @@ func ruleC16g(c *Ctx, rule string) {
 	}
 	c.floor(rule, "expression evaluations on the ingest path", nEval, 2)
 	c.floor(rule, "mutex acquisitions on the ingest path", nLocks, 2)
+}
+
+// globalMapEntries returns the constant-keyed entries a package-level map
+// variable is initialised with (in the package's init).
+func globalMapEntries(P *Prog, pkgPath, varName string) map[string]ssa.Value {
+	out := map[string]ssa.Value{}
+	ini := P.Func(pkgPath + ".init")
+	if ini == nil {
+		return out
+	}
+	var maps []ssa.Value
+	for _, in := range instrs(ini) {
+		st, ok := in.(*ssa.Store)
+		if !ok {
+			continue
+		}
+		if g, isG := st.Addr.(*ssa.Global); isG && g.Name() == varName && short(g.Pkg.Pkg.Path()) == pkgPath {
+			maps = append(maps, st.Val)
+		}
+	}
+	for _, in := range instrs(ini) {
+		mu, ok := in.(*ssa.MapUpdate)
+		if !ok {
+			continue
+		}
+		for _, m := range maps {
+			if mu.Map == m {
+				if k, isK := constString(mu.Key); isK {
+					out[k] = mu.Value
+				}
+			}
+		}
+	}
+	return out
+}
+
+// ruleC16h: variadic dimension functions get the arguments their constructors index.
+func ruleC16h(c *Ctx, rule string) {
+	c.describe(rule, "flow: every variadic constructor registered in sql.varGoExpr that indexes or slices its argument list at a constant position without testing its length (goexpr.Concat: exprs[0], exprs[1:]) is only called with at least that many arguments — the dispatch in package sql compares the number of parameters the client wrote with the minimum recorded for the function (sql.minVarGoExprParams) before calling it; CONCAT() must be an error, not an index-out-of-range panic inside the parser")
+	entries := globalMapEntries(c.P, "z/sql", "varGoExpr")
+	if len(entries) == 0 {
+		c.undecided(rule, "variadic function table", token.NoPos, "sql.varGoExpr and its initialisation were not found")
+		return
+	}
+	mins := map[string]int64{}
+	for k, v := range globalMapEntries(c.P, "z/sql", "minVarGoExprParams") {
+		if n, ok := constInt(v); ok {
+			mins[k] = n
+		}
+	}
+	// the dispatch really consults the table before the call
+	consults := false
+	for _, fn := range c.P.ModFns {
+		if pkgOf(fn) != "z/sql" {
+			continue
+		}
+		lookupFn, lookupMin := map[ssa.Value]bool{}, map[ssa.Value]bool{}
+		for _, in := range instrs(fn) {
+			lk, ok := in.(*ssa.Lookup)
+			if !ok {
+				continue
+			}
+			if u, isU := lk.X.(*ssa.UnOp); isU {
+				if g, isG := u.X.(*ssa.Global); isG {
+					switch g.Name() {
+					case "varGoExpr":
+						lookupFn[lk] = true
+					case "minVarGoExprParams":
+						lookupMin[lk] = true
+					}
+				}
+			}
+		}
+		if len(lookupFn) == 0 || len(lookupMin) == 0 {
+			continue
+		}
+		for _, call := range calls(fn) {
+			cc := call.Common()
+			if cc.StaticCallee() != nil || cc.IsInvoke() || !dependsOn(cc.Value, func(v ssa.Value) bool { return lookupFn[v] }) {
+				continue
+			}
+			for _, g := range guardsOf(call.Block()) {
+				if b, isB := g.v.(*ssa.BinOp); isB && (dependsOn(b.X, func(v ssa.Value) bool { return lookupMin[v] }) || dependsOn(b.Y, func(v ssa.Value) bool { return lookupMin[v] })) {
+					consults = true
+				}
+			}
+		}
+	}
+	var names []string
+	for k := range entries {
+		names = append(names, k)
+	}
+	sort.Strings(names)
+	for _, name := range names {
+		var f *ssa.Function
+		switch x := entries[name].(type) {
+		case *ssa.Function:
+			f = x
+		case *ssa.MakeClosure:
+			f, _ = x.Fn.(*ssa.Function)
+		case *ssa.ChangeType:
+			f, _ = x.X.(*ssa.Function)
+		}
+		if f == nil || len(f.Blocks) == 0 || len(f.Params) == 0 {
+			c.undecided(rule, "variadic function "+name+" gets the arguments it indexes", token.NoPos, "the registered constructor cannot be analysed")
+			continue
+		}
+		c.touch(f)
+		p := f.Params[len(f.Params)-1]
+		var need int64
+		for _, in := range instrs(f) {
+			lenGuarded := false
+			for _, g := range guardsOf(in.Block()) {
+				if dependsOn(g.v, func(v ssa.Value) bool {
+					cl, ok := v.(*ssa.Call)
+					return ok && isCall(cl, "builtin len") && cl.Call.Args[0] == ssa.Value(p)
+				}) {
+					lenGuarded = true
+				}
+			}
+			if lenGuarded {
+				continue
+			}
+			switch x := in.(type) {
+			case *ssa.IndexAddr:
+				if x.X == ssa.Value(p) {
+					if k, ok := constInt(x.Index); ok && k+1 > need {
+						need = k + 1
+					}
+				}
+			case *ssa.Slice:
+				if x.X == ssa.Value(p) && x.Low != nil {
+					if k, ok := constInt(x.Low); ok && k > need {
+						need = k
+					}
+				}
+			}
+		}
+		declared := int64(0)
+		if consults {
+			declared = mins[name]
+		}
+		c.check(rule, "variadic function "+name+" gets the arguments it indexes", f.Pos(), declared >= need, "constructor needs "+itoa(int(need))+", the dispatch guarantees "+itoa(int(declared)), "the constructor registered for "+name+" indexes its argument list up to position "+itoa(int(need))+" unconditionally but the dispatch guarantees only "+itoa(int(declared))+" argument(s): "+name+"() with too few parameters panics inside sql.Parse / planning instead of returning an error")
+	}
+	c.floor(rule, "variadic dimension functions", len(names), 4)
 }
